@@ -34,6 +34,8 @@ fn main() {
     (args[3].clone(), None)
   };
   match id {
+    "C09" => drive::c09::check(Ctx::new(id, &tier, "model_checking"), replay),
+    "C16" => drive::c16::check(Ctx::new(id, &tier, "model_checking"), replay),
     "C17" => drive::c17::check(Ctx::new(id, &tier, "model_checking"), replay),
     "C18" => drive::c18::check(Ctx::new(id, &tier, "model_checking"), replay),
     _ => tool_error(&format!("no check for {}", id)),
